@@ -15,7 +15,10 @@ ObservedEffect == IF Line.newSession THEN "session" ELSE IF Line.cfgChanged THEN
                   ELSE IF Line.loggedOut THEN "logout" ELSE "none"
 LiveMatches == \A i \in S : (i <= Len(Line.live)) => (Line.live[i] = (st'[i] = "live"))
 Problems(isReq) ==
-    (IF isReq /\ Line.status # last'.status THEN {"status"} ELSE {})
+    \* (for a plain route the property only says that the handler is reached: whatever it answers, it is not 401 / 403)
+    (IF isReq /\ Line.status # last'.status /\ ~(Line.kind = "get" /\ last'.status = "2xx" /\ Line.status \notin {"401", "403"})
+     THEN {"status"} ELSE {})
+    \cup (IF isReq /\ "panic" \in DOMAIN Line THEN {"panic"} ELSE {})
     \cup (IF isReq /\ ObservedEffect # last'.effect THEN {"effect"} ELSE {})
     \cup (IF LiveMatches THEN {} ELSE {"sessions"})
 Consume(isReq) ==
